@@ -86,6 +86,28 @@ def run(ctx):
                         eq = f"raised {e}"
                     if eq is not True:
                         ctx.violation("C11:prefixed-quantity-not-equal-to-scaled", f"{mag}*({pname}*{uname}) == {other!r} is {eq}", {"prefix": pname, "unit": uname, "mag": mag})
+            # what the caller does with the quantities it was handed must not change the unit: augmented assignment on
+            # the results of quantify() / unprefixed() / in_unit() (shared, memoised objects inside the library), then
+            # the defining identity once more
+            if rng.random() < 0.25:
+                ctx.count("identities/after_augmented_assignment_on_returned_quantities")
+                try:
+                    d = pu.quantify()
+                    d *= 42
+                    d /= 8
+                    e2 = (3 * pu).unprefixed()
+                    e2 *= 2
+                    e2 += e2
+                    f2 = (5 * pu).in_unit(u)
+                    f2 -= f2
+                    f2 **= 2
+                except Exception as ex:
+                    ctx.count(f"identities/augmented_assignment_raised/{type(ex).__name__}")
+                un2 = (7 * pu).unprefixed()
+                expected2 = 7 * pv * oracle.prefix_value(u.prefix)
+                if not close(un2.magnitude, expected2, R12 if p.base in (0, u.prefix.base or p.base) else R9):
+                    ctx.violation("C11:unprefixed-changes-value", f"after augmented assignments on quantities returned for {pname}*{uname}: (7 {pname}*{uname}).unprefixed() = {un2.magnitude!r}, "
+                                  f"exact {core.sf(expected2)!r}; quantify() = {pu.quantify()!r}", {"prefix": pname, "unit": uname})
             # identity prefix is neutral; division by a prefixed unit
             ctx.count("identities/identity_prefix")
             if Identity * u is not u or u * Identity is not u:
